@@ -44,6 +44,7 @@ def strategy(tier):
         "export": st.sampled_from(["memory", "write_out", "emmotl2stopgap_df", "emmotl2stopgap_em"]),
         "import": st.sampled_from(["class_path", "stopgap2emmotl", "none"]),
         "independent": st.sampled_from(["none", "none", "frame", "text"]),
+        "ids_pattern": st.sampled_from([None, None, None, None, "permuted", "other"]),
     })
 
 
@@ -103,6 +104,17 @@ def run(case):
     df0 = gen.table_df(case["table"])
     a = gen.table_array(case["table"])
     n = len(a)
+    pat = case.get("ids_pattern")
+    if pat and n >= 3:
+        # numbers that start with 1 and end with N but are no 1..N sequence in between (permuted interior, or other numbers)
+        r_ = np.random.default_rng(n + len(case["table"]["cols"][0]))
+        mid = (r_.permutation(np.arange(2, n)) if pat == "permuted" else r_.permutation(np.arange(n + 5, 3 * n + 5))[: n - 2]).astype(float)
+        if pat == "permuted" and n >= 4 and np.all(np.diff(mid) > 0):
+            mid = mid[::-1].copy()
+        newids = np.concatenate([[1.0], mid, [float(n)]])
+        a[:, C.index("subtomo_id")] = newids
+        df0["subtomo_id"] = newids.astype(df0["subtomo_id"].dtype)
+        out.label(f"ids_first_1_last_N:{pat}")
     ang = a[:, [C.index("phi"), C.index("psi"), C.index("theta")]]
     distinct_ang = bool(np.any((ang[:, 0] != ang[:, 1]) & (ang[:, 1] != ang[:, 2]) & (ang[:, 0] != ang[:, 2])))
     par = a[:, C.index("subtomo_id")].astype(int) % 2
@@ -241,6 +253,21 @@ def run(case):
         if ok_e:
             bad = oracle.em_motl_mismatch("as_em.em", back.df)
             out.check(bad is None, f"write_em:file_{bad}", "")
+    # a STOPGAP list object that was changed through its own methods is converted further as an object: the conversion
+    # sees the list as it is now, not the table it was loaded from
+    if im == "class_path" and ok and not out.violations:
+        ok_s, sgo = call(out, "StopgapMotl(path)", lambda: cryomotl.StopgapMotl(star_path))
+        if ok_s:
+            ok_s, _ = call(out, "update_coordinates", lambda: sgo.update_coordinates())
+        if ok_s:
+            now = np.nan_to_num(sgo.df[C].to_numpy(dtype=float))  # (fields STOPGAP does not have are empty: NaN or 0)
+            for nm_, fn_ in (("stopgap2emmotl(object)", lambda: cryomotl.stopgap2emmotl(sgo)), ("StopgapMotl(object)", lambda: cryomotl.StopgapMotl(sgo))):
+                ok_c, conv = call(out, nm_, fn_)
+                if ok_c:
+                    got_ = np.nan_to_num(conv.df[C].to_numpy(dtype=float))
+                    out.check(got_.shape == now.shape and np.array_equal(got_, now), "object_form:conversion_of_a_changed_list_object_returns_its_earlier_state", nm_)
+            out.check(np.array_equal(np.nan_to_num(sgo.df[C].to_numpy(dtype=float)), now), "object_form:source_object_modified", "")
+            out.label("object_form_after_update")
     # a list loaded from STOPGAP data is exported again with the OTHER numbering request: the new file follows the new
     # request (motl_idx = subtomogram number without reset, 1..N with reset), not what the loaded file happened to hold
     if im == "class_path" and ok and not out.violations:
